@@ -14,6 +14,7 @@ import (
 	"path/filepath"
 	"regexp"
 	"sort"
+	"strconv"
 	"strings"
 	"sync"
 
@@ -363,6 +364,19 @@ func gate(c *drv.Ctx, bin string, seed int64, mode string, scanned map[string][]
 	}
 	es := catalogue(wd, root, r)
 	kn := known(es)
+	if mode == "default" {
+		// HTTP method tokens are case-sensitive on the wire, but the data types dispatch on the lower-cased method:
+		// "post" / "Delete" reach the same mutation code and must meet the same refusal on a committed version
+		for _, e := range append([]entry{}, es...) {
+			v := e
+			v.method, v.class = strings.ToLower(e.method), "catalogue-lowercase-method"
+			es = append(es, v)
+			if !c.Quick() {
+				v.method, v.class = e.method[:1]+strings.ToLower(e.method[1:]), "catalogue-titlecase-method"
+				es = append(es, v)
+			}
+		}
+	}
 	// scanned keywords without a catalogue payload get generic bodies
 	for inst, t := range typeOf {
 		if c.Quick() && mode != "default" {
@@ -513,7 +527,7 @@ func stability(c *drv.Ctx, bin string, seed int64, idx int) error {
 						fam = parts[4] + "/" + strings.SplitN(parts[5], "?", 2)[0]
 					}
 					c.Violation("committed-read-changed:"+strings.SplitN(fam, " ", 2)[0], fmt.Sprintf("committed version %s no longer reads as at commit time (%d urls) after %q: %s", wd.H.Short(u), len(ds), d, strings.Join(head(ds, 3), " || ")),
-						map[string]interface{}{"seed": seed, "trace": tail(wd.Trace, 40), "diffs": head(ds, 6)})
+						map[string]interface{}{"seed": seed, "trace": tail(wd.Trace, traceLen()), "diffs": head(ds, 6)})
 					base[u] = now
 				}
 			}
@@ -534,6 +548,11 @@ func run(c *drv.Ctx) error {
 	bin, err := c.Build("dvidw", "")
 	if err != nil {
 		return err
+	}
+	if s := os.Getenv("C02_STAB_SEED"); s != "" { // debugging aid: one stability history with the seed of a witness
+		seed, _ := strconv.ParseInt(s, 10, 64)
+		idx, _ := strconv.Atoi(os.Getenv("C02_STAB_IDX"))
+		return stability(c, bin, seed, idx)
 	}
 	scanned := scanKeywords()
 	n := 0
@@ -560,6 +579,7 @@ func run(c *drv.Ctx) error {
 		seed := c.Rand.Int63()
 		run1(func() error { return gate(c, bin, seed, mode, scanned) })
 	}
+	run1(func() error { return directedResolve(c, bin) })
 	ns := c.N(6, 60)
 	sem := make(chan struct{}, 6)
 	for i := 0; i < ns; i++ {
@@ -578,4 +598,11 @@ func run(c *drv.Ctx) error {
 	}
 	_ = dvc.Absent
 	return nil
+}
+
+func traceLen() int {
+	if os.Getenv("VERIF_FULLTRACE") != "" {
+		return 100000
+	}
+	return 40
 }
